@@ -12,7 +12,9 @@ SECTION = ('sdict', ('sdict', PERMISSION))              # object type -> operati
 # a bundle's 'preset' is a section, its 'groups' a mapping group -> section
 BUNDLE = ('sdict', ('bykey', {'preset': SECTION, 'groups': ('sdict', SECTION)}))
 POLICIES = ('sdict', BUNDLE)            # every policy store at once (uninterpreted content)
-ENGINE = ('obj', 'kmip.services.server.engine.KmipEngine',
+# an engine in the middle of its life: whatever other attribute it carries (a cache, a flag left by an
+# earlier request) holds an arbitrary value - the decision must not depend on it
+ENGINE = ('obj_open', 'kmip.services.server.engine.KmipEngine',
           {'_operation_policies': POLICIES, '_logger': 'logger'})
 USER = 'str'
 GROUP_NAME = 'nonempty_str'
